@@ -13,12 +13,12 @@ func main() {
 	o := hx.ParseFlags("C02")
 	res := hx.NewResult(o, "c02: real SQLite + litestream histories with a concurrent application writer; every replicated TXID restored and matched against the commit ledger")
 	res.Rule = "seeded histories of 6-24 ops where Sync/SyncAndWait/Checkpoint(mode)/Snapshot/Compact run while a concurrent writer goroutine commits multi-statement transactions and rolls some back; at the end EVERY TXID listed at any level is restored and must equal the logical state after exactly one application commit (ledger), TXID->commit monotone, level-0 gapless; non-trivial = at least 2 TXIDs restored; distinct = canonical history text"
-	or := histlib.Oracles{Ledger: true, AckRestore: false}
+	or := histlib.Oracles{Ledger: true, AckRestore: false, TraceL0: true}
 	if o.Replay != "" {
 		os.Exit(histlib.ReplayMain(o, or))
 	}
 	histlib.RunEngine(o, res, histlib.EngineSpec{ID: "C02", Gen: histlib.GenC02, Oracles: or, NQuick: 120, NThorough: 2500,
-		Nontrivial: func(st histlib.RunStats) bool { return st.Syncs >= 2 }})
+		Nontrivial: func(st histlib.RunStats) bool { return st.Syncs >= 2 }, Extra: histlib.L0Extra(o, "C02")})
 	if err := res.Write(o.Out); err != nil {
 		hx.Fatal(err)
 	}
